@@ -71,6 +71,20 @@ Theorem C10_completed_effects :
 Proof. exact completed_effects_src. Qed.
 Print Assumptions C10_completed_effects.
 
+(* Nothing that a reader looks at is ever written in place: every create / truncate /
+   write / chmod micro-step of every operation targets a temporary (ingest/<d>_<rnd> or
+   index.json.tmp<rnd>); oci-layout, index.json and blobs/ change by rename and unlink
+   only.  Hence the granularity of write(2) (partial or torn writes) is irrelevant. *)
+Theorem C10_no_in_place_write :
+  forall (H : list N -> N) (shuffle : nat -> list entry -> list entry) (s : st) (o : op) (m : mstep),
+    In m (op_steps H shuffle src_inplace src_unlink_first s o) ->
+    match m with
+    | Create p | OpenTrunc p | Write p _ | Chmod p => is_temp p = true
+    | _ => True
+    end.
+Proof. exact no_in_place_write_src. Qed.
+Print Assumptions C10_no_in_place_write.
+
 (* the source orders the proof relies on: temp+rename index write, index before unlink,
    blob stored before it is tagged, ingest = create temp / copy+verify / chmod, then rename *)
 Theorem C10_source_order :
